@@ -162,3 +162,8 @@ CHECK = Check(
         "buffered-path leftover is read from the consumer's private re-injection counter",
     ],
 )
+
+# thorough tier: the same strategy and oracle driven by the coverage-guided engine (pbt/covfuzz.py)
+from ..covfuzz import cov_layer  # noqa: E402
+
+CHECK.layers.append(cov_layer("C01", CHECK.layer("roundtrip"), runs=8000, time_s=100))
